@@ -15,7 +15,7 @@ ASSUMPTIONS = [
     'the shaper process on the real kernel refines the FifoServer LTS: checked by replay (labels from Process.target); for the TokenBucket '
     'written as a process on the kernel MODEL it is a theorem (Props/C11K.lean), and that program is compared bit for bit with the real TokenBucket (tbk leg)',
 ]
-EXTRA_MODULES = ('OnlVerif.Props.C11K',)
+EXTRA_MODULES = ('OnlVerif.Props.C11K', 'OnlVerif.Props.C11K2')
 TRUSTED_EXTRA = ['the kernel guarantees (G1-G3) that make `tick` admissible only at quiescence are theorems of model K (C01), assumed for the device LTS',
                  'py2lean/elem.py + elements.py (typed AST-subset translator that splits a server generator at its `yield env.timeout` statements; '
                  'hand-written field schema of TokenBucket / TwoRateTokenBucket objects, declared effects `self.store.put(packet)`, `self.out.put(packet)`, `packet.color = …`); '
@@ -485,8 +485,170 @@ def run_tbk(ctx, res=None):
 # ---- END tbk leg ----
 
 
+# ---- BEGIN trk leg: the TwoRateTokenBucket as a process on the kernel MODEL (lean/OnlVerif/Net/TwoRateOnK.lean, driver mode `trk`) ----
+def run_trk(ctx, res=None):
+    """Extra leg for Props/C11K2.lean: the K program of the TwoRateTokenBucket (run / put + a source process), run at Float by the
+    compiled driver, against the real TwoRateTokenBucket with a real source process on the real kernel under env.run() (public API
+    only), compared line for line; plus the release recurrence and the colour rule restated over the implementation's own put / out
+    observations.  Called twice from run(), like run_tbk: without `res` it answers whether ctx.replay is a replay of this leg."""
+    from vlib.util import unbits
+
+    def replay_cases():
+        j = json.load(open(ctx.replay))
+        cs = ([j['case']] if j.get('case') else []) + [d['case'] for d in (j.get('broken_correspondence') or []) if d.get('case')]
+        return [c for c in cs if isinstance(c, dict) and c.get('kind') == 'trk']
+
+    if res is None:
+        if not (ctx.replay and replay_cases()):
+            return None
+        res = {'coverage': {'evaluations': 0, 'distinct_nontrivial': 0, 'rule': 'replay of a trk case', 'samples': []},
+               'disagreements': [], 'oracle_failures': []}
+        run_trk(ctx, res)
+        k = res['coverage']['tworate_on_kernel_model']
+        res['coverage'].update(evaluations=k['evaluations'], distinct_nontrivial=k['distinct_nontrivial'], samples=[k['sample']])
+        return res
+
+    def gen(rng, cid):
+        dyadic = rng.random() < 0.6
+        sizes = DY_SIZE if dyadic else [rng.randint(1, 3000) for _ in range(4)] + [40, 1500]
+        def rate():
+            return float(rng.choice(DY_RATE)) if dyadic else rng.choice([rng.uniform(1, 1e4), rng.uniform(1e3, 1e7), float(rng.randint(1, 10 ** 6))])
+        def bucket():
+            return rng.choice(DY_BUCKET) if dyadic else rng.choice([rng.randint(0, 5000), rng.randint(1, 200), round(rng.uniform(0, 4000), 2)])
+        cir, cbs = rate(), bucket()
+        if rng.random() < 0.6:
+            pir = cir * rng.choice([1, 2, 4, 1.5]) if rng.random() < 0.8 else rate()
+            pbs = bucket() or rng.choice([64, 1500])
+        else:
+            pir, pbs = rng.choice([None, None, 0]), rng.choice([None, None, 1500])
+        n = rng.randint(0, 12)
+        arr = [[float(rng.choice(GAPS[:9] + [round(rng.random() * 4, 3)])), rng.choice(sizes)] for _ in range(n)]
+        return {'cid': f'r{cid}', 'kind': 'trk', 'cir': cir, 'cbs': cbs, 'pir': pir, 'pbs': pbs, 'arrivals': arr}
+
+    def ob(x):
+        return 'None' if x is None else str(bits(float(x)))
+
+    def text(c):
+        return ([f"CASE {c['cid']} {ob(c['cir'])} {ob(c['cbs'])} {ob(c['pir'])} {ob(c['pbs'])}"]
+                + [f'arr {bits(g)} {sz}' for g, sz in c['arrivals']] + ['END'])
+
+    def impl(c):
+        env = Environment()
+        hist = []
+        tr = TwoRateTokenBucket(env, c['cir'], c['cbs'], c['pir'], c['pbs'])
+
+        class Rec:
+            def put(self, packet):
+                hist.append(f"out {packet.packet_id} {COL.get(packet.color, 9)} {bits(env.now)}")
+        tr.out = Rec()
+
+        def src():
+            for i, (gap, sz) in enumerate(c['arrivals']):
+                yield env.timeout(gap)
+                hist.append(f'put {i} {bits(env.now)}')
+                tr.put(make_packet(env, i, 0, sz))
+        env.process(src())
+        try:
+            with quiet():
+                env.run()
+            tag = 'RET'
+        except BaseException as x:        # noqa - the property says the run never raises
+            tag = f'RAISED {type(x).__name__}'
+        lines = [tag] + hist + [f'cells rc={tr.packets_received} sn={tr.packets_sent} cm={ob(tr.current_bucket_commit)} '
+                                f'pk={ob(tr.current_bucket_peak)} ut={ob(tr.update_time)}', f'now {bits(env.now)}']
+        return lines + ['oracle -' if tag != 'RET' else 'oracle ok' if not oracle_k(c, lines) else 'oracle REJECT']
+
+    def oracle_k(c, lines):
+        """release recurrence and colour rule of C11 restated over the implementation's own put / out observations, in Python floats with
+        the code's expression order, exact equality: the packet reaches the head at g = max(put instant, previous departure); both
+        configured buckets are refilled to min(size of the bucket, level + rate*(g - updated)/8); with PIR: green at g if both cover the
+        packet (both pay), yellow at g if only the committed tokens are short (peak pays, committed emptied), red (size - peak)*8/PIR
+        later if the peak tokens are short (peak emptied); without PIR: green at g if the committed bucket covers it, else yellow
+        (size - commit)*8/CIR later (committed emptied); FIFO; all leave"""
+        if lines[0] != 'RET':
+            return [{'what': f'the run ended with {lines[0]}', 'signature': 'trk-raised'}]
+        waiting, cm, pk, upd, free = [], c['cbs'], c['pbs'], 0.0, 0.0
+        sizes = [sz for _, sz in c['arrivals']]
+        for l in lines[1:]:
+            w = l.split()
+            if w[0] == 'put':
+                waiting.append((int(w[1]), unbits(int(w[2]))))
+            elif w[0] == 'out':
+                i, col, t = int(w[1]), int(w[2]), unbits(int(w[3]))
+                if not waiting or waiting[0][0] != i:
+                    return [{'what': f'packet {i} leaves out of order', 'signature': 'trk-order'}]
+                tp = waiting.pop(0)[1]
+                g = max(free, tp)
+                cm = min(c['cbs'], cm + c['cir'] * (g - upd) / 8.0)
+                if c['pir']:
+                    if not c['pbs']:
+                        return [{'what': 'PIR without PBS (outside the property)', 'signature': 'trk-config'}]
+                    pk = min(c['pbs'], pk + c['pir'] * (g - upd) / 8.0)
+                    if sizes[i] > pk:
+                        d = g + (sizes[i] - pk) * 8.0 / c['pir']; pk = 0.0; want = 3
+                    elif sizes[i] > cm:
+                        d = g; pk -= sizes[i]; cm = 0.0; want = 2
+                    else:
+                        d = g; pk -= sizes[i]; cm -= sizes[i]; want = 1
+                else:
+                    if sizes[i] > cm:
+                        d = g + (sizes[i] - cm) * 8.0 / c['cir']; cm = 0.0; want = 2
+                    else:
+                        d = g; cm -= sizes[i]; want = 1
+                upd = d
+                if t != d:
+                    return [{'what': f'packet {i} leaves at {t!r}, the recurrence prescribes {d!r}', 'signature': 'trk-release-time'}]
+                if col != want:
+                    return [{'what': f'packet {i} leaves with colour {col}, the rule prescribes {want} (1 green, 2 yellow, 3 red)', 'signature': 'trk-colour'}]
+                free = t
+        if waiting:
+            return [{'what': f'packets {[i for i, _ in waiting][:6]} never left', 'signature': 'trk-drain'}]
+        return []
+
+    rng = random.Random(f'C11-trk-{ctx.seed}')
+    cases = replay_cases() if ctx.replay else [gen(rng, i) for i in range(300 if ctx.quick else 5000)]
+    txt, got = [], {}
+    for c in cases:
+        got[c['cid']] = impl(c)
+        txt += text(c)
+    model = split_cases(run_driver('trk', '\n'.join(txt) + '\n')) if cases else {}
+    hist, nontriv = collections.Counter(), 0
+    dis, orc = res['disagreements'], res['oracle_failures']
+    for c in cases:
+        a, b = got[c['cid']], model.get(c['cid'])
+        if a != b:
+            i = next((i for i in range(max(len(a), len(b or []))) if i >= len(a) or not b or i >= len(b) or a[i] != b[i]), 0)
+            dis.append({'case': c, 'detail': f'trk line {i}: impl `{a[i] if i < len(a) else None}` model `{b[i] if b and i < len(b) else None}`',
+                        'impl': a[:300], 'model': (b or [])[:300]})
+        for f in oracle_k(c, a):
+            f['case'] = c; f['trace'] = a[:300]
+            orc.append(f)
+        puts = {l.split()[1]: l.split()[2] for l in a if l.startswith('put ')}
+        outs = {l.split()[1]: l.split()[3] for l in a if l.startswith('out ')}
+        cols = collections.Counter(l.split()[2] for l in a if l.startswith('out '))
+        waited = sum(1 for i in outs if outs[i] != puts.get(i))
+        hist['packets'] += len(puts); hist['released later than they arrived'] += waited
+        hist['released at their arrival instant'] += len(outs) - waited
+        for k, v in cols.items():
+            hist['colour:' + {'1': 'green', '2': 'yellow', '3': 'red'}.get(k, k)] += v
+        hist['config:' + ('pir+pbs' if c['pir'] else 'cir-only')] += 1
+        if len(cols) >= 2:
+            nontriv += 1
+    res['coverage']['tworate_on_kernel_model'] = {
+        'evaluations': len(cases), 'distinct_nontrivial': nontriv, 'lines_compared': sum(len(v) for v in got.values()),
+        'rule': 'random TwoRateTokenBucket configurations (PIR+PBS / CIR only incl. pir 0 and a PBS without PIR; dyadic and arbitrary-float rates, bucket '
+                'sizes incl. 0 and smaller than the packets) x one source (bursts, idle gaps) run by the K program at Float (driver mode trk) and by the real '
+                'TwoRateTokenBucket with a real source process under env.run(); non-trivial = packets of at least two colours left',
+        'histogram': dict(sorted(hist.items())), 'sample': cases[0] if cases else None}
+    return None
+# ---- END trk leg ----
+
+
 def run(ctx):
     tk = run_tbk(ctx)                        # tbk leg: a replay of one of its cases runs only that leg
+    if tk is not None:
+        return tk
+    tk = run_trk(ctx)                        # trk leg: likewise
     if tk is not None:
         return tk
     rng = random.Random(f'C11-{ctx.seed}')
@@ -585,4 +747,5 @@ def run(ctx):
                 'generated_diff_vs_pinned': _PREP.get('diff_vs_pinned', []), 'bridge_theorems': BRIDGES, 'hand_modelled': HAND_MODELLED})
     res = {'coverage': cov, 'disagreements': dis, 'oracle_failures': orc}
     run_tbk(ctx, res)                        # tbk leg: appends its coverage, disagreements and oracle failures in place
+    run_trk(ctx, res)                        # trk leg: likewise
     return res
